@@ -314,7 +314,7 @@ func checkMain(args []string) int {
 	if len(vacuous) > 0 {
 		machinery = append(machinery, "vacuous preconditions (no return reachable) in: "+strings.Join(vacuous, ", "))
 	}
-	if explicit < ps.MinExplicit {
+	if explicit < ps.MinExplicit && *only == "" {
 		// contract clauses that no longer bind to the code: obligations that used to be proved are not generated
 		violations++
 		rp := filepath.Join(verifDir(), "replays", *prop+"_binding.txt")
